@@ -326,7 +326,7 @@ fn rewrite_stream(rep: &mut Report, rng: &mut Rng) {
             let out = show_recs(&r);
             let req = request("rewrite", &t, &case.cfg, &case.entries);
             let c = &case.cfg;
-            rep.count(&format!("cfg.source_dir={}", match &c.sd { None => "none", Some(s) if *s == t.src => "tree", _ => "nonexistent" }));
+            rep.count(&format!("cfg.source_dir={}", match &c.sd { None => "none", Some(s) if *s == t.src => "tree", Some(s) if !s.starts_with('/') => "relative", _ => "nonexistent" }));
             rep.count(&format!("cfg.prefix_dir={}", match &c.pd { None => "none", Some(p) if Some(p) == c.sd.as_ref() => "=source", _ => "other" }));
             if c.mapping.is_some() { rep.count("cfg.mapping"); }
             if !c.ignore.is_empty() { rep.count("cfg.ignore"); }
